@@ -43,6 +43,8 @@ def is_range_check(c, x):
 
 
 def run(ctx, chk, tier):
+    from . import c01 as _c01
+    _c01.flag_identity(ctx, chk)   # direction flags: identity comparisons need BinaryLabel members on every construction path
     chk.rule_text = ("obligations: 8 label round trips, constructor state on every return path for both score classes, override scan of the class body, "
                      "raise-condition analysis of the range validation, from_labels split and forwarding; non-trivial = involves a source-derived term")
     chk.explanation = ("The two enums are constant-folded to show the translations are mutually inverse; FraudScores.__init__ is explored symbolically: every normal path leaves "
